@@ -167,7 +167,7 @@ class TG:
             return 'AT_LEAST_ONE' if p.required else 'MANY'
         return 'ONE' if p.required else 'AT_MOST_ONE'
 
-    def shape(self, t, depth, via_link=None):
+    def shape(self, t, depth, via_link=None, actual=None):
         """-> (shape text, expected elements [(name, flags, card|None, E)])"""
         els, exp = [], []
         ptrs = list(self.info.ptrs(t).values())
@@ -225,8 +225,11 @@ class TG:
                 p = self.pick(own)
                 e = self.ptr_e(p)
                 els.append(f'[is {sub}].{p.name}')
-                exp.append((p.name, 0, None if p.computed else ('MANY' if p.multi else 'AT_MOST_ONE'),
-                            ('set', e) if p.multi else e))
+                # when the subject is already (a subtype of) `sub` the intersection is a no-op and
+                # the element keeps the lower bound of the pointer
+                noop = actual is not None and (actual == sub or actual in self.info.types[sub]['descendants'])
+                pc = self.card(p) if noop else ('MANY' if p.multi else 'AT_MOST_ONE')
+                exp.append((p.name, 0, None if p.computed else pc, ('set', e) if p.multi else e))
         if via_link is not None and not via_link.computed:
             for lp, k in via_link.linkprops:
                 if isinstance(k, tuple) or self.i(0, 1):
@@ -265,7 +268,6 @@ class TG:
             return 'select (' + ', '.join(t for t, _ in parts) + ')', ('tuple', [e for _, e in parts])
         if c <= 5:
             t = self.pick(list(self.info.types))
-            st, se = self.shape(t, self.i(1, 3))
             subj = t
             e_t = t
             r = self.i(0, 5)
@@ -274,6 +276,9 @@ class TG:
                 subj = f'{t}[is {sub}]'
                 # shape pointers come from t; result type is sub
                 e_t = sub
+            st, se = self.shape(t, self.i(1, 3), actual=e_t)
+            if r == 0 and e_t != t:
+                pass
             elif r == 1:
                 subj = f'(select {t} filter .id = <uuid>$idp)' if False else f'(select {t} limit 1)'
             return f'select {subj} {st}', ('shape', e_t, se)
